@@ -406,6 +406,37 @@ def _is_len(e):
     return (e[0] == "call" and re.search(r"::len$", e[1]) is not None) or e[0] == "len" or (e[0] == "const" and isinstance(e[2], int))
 
 
+def _bool_decided_by(f, ex, body, dom, discr, call_bb, depth=0):
+    """is the switch operand a local whose every definition inside the loop is a constant assigned under a branch that depends on the
+    result of the call in block `call_bb`?  (the lowering of `matches!(call, pattern if guard)` and of `a && b` over a call result)"""
+    if discr["k"] == "const" or discr["place"]["p"] or depth > 3:
+        return False
+    l = discr["place"]["l"]
+    defs = [(bi, s) for bi in body for s in f.blocks[bi]["stmts"] if s["k"] == "assign" and s["place"]["l"] == l and not s["place"]["p"]]
+    if not defs:
+        return False
+    dep_sw = set()
+    for sb in body:
+        st = f.term(sb)
+        if st and st["k"] == "switch":
+            d = norm(ex.operand(st["discr"], (sb, None)))
+            if any(x[0] == "call" and len(x) > 4 and x[4] == call_bb for x in walk(d)):
+                dep_sw.add(sb)
+    for bi, s in defs:
+        rv = s["rv"]
+        if rv["k"] == "use" and rv["op"]["k"] == "const":
+            if not any(sb in dom[bi] and sb != bi for sb in dep_sw):
+                return False
+        elif rv["k"] == "use" and rv["op"]["k"] in ("copy", "move") and not rv["op"]["place"]["p"]:
+            if not _bool_decided_by(f, ex, body, dom, rv["op"], call_bb, depth + 1):
+                return False
+        else:
+            e = norm(ex.rvalue(rv, (bi, None)))
+            if not any(x[0] == "call" and len(x) > 4 and x[4] == call_bb for x in walk(e)):
+                return False
+    return True
+
+
 def rule_loop(facts, rep, reach):
     rule = "C05-LOOP"
     okall = True
@@ -483,6 +514,10 @@ def rule_loop(facts, rep, reach):
                             d = norm(ex.operand(st["discr"], (sb, None)))
                             dep = any(x[0] == "call" and len(x) > 4 and x[4] == b for x in walk(d))
                             if dep and any(s_ not in body for s_ in f.succ(sb)):
+                                consume = (b, t)
+                            elif not dep and any(s_ not in body for s_ in f.succ(sb)) and _bool_decided_by(f, ex, body, dom, st["discr"], b):
+                                # `while matches!(r.read(..), Ok(n) if n != 0) {}`: the exit tests a boolean that is set to constants
+                                # on the arms of a match on the call's result
                                 consume = (b, t)
                     if consume:
                         break
